@@ -33,6 +33,7 @@ def run(ctx):
     r_alloc(ctx, P)
     r_quad(ctx, P)
     r_rescan(ctx, P)
+    discarded_buffers(ctx, P)
     ceilings(ctx, P)
     rec(ctx, P)
 
@@ -146,6 +147,87 @@ def r_rescan(ctx, P):
         ctx.check('%s:S19-4:no-rescan-of-accumulator:%s' % (P, p), 'R-quad', 'no loop of %s walks the container it is appending to (work stays linear in the number of items)' % p.split('::')[-1],
                   not bad, function=p, missing=sorted(set(bad)) or None)
     ctx.floor(P + ':S19-4:rescan-floor', 'append sites inside functions with loops', n, 40)
+
+
+def _mentions(x, l):
+    if isinstance(x, dict):
+        if x.get('l') == l and 'pr' in x:
+            return True
+        return any(_mentions(v, l) for v in x.values())
+    if isinstance(x, list):
+        return any(_mentions(v, l) for v in x)
+    return False
+
+
+def discarded_buffers(ctx, P):
+    """`streaming a message keeps a bounded buffer regardless of message size`: reading a whole packet into a fresh vector that is
+    never looked at afterwards (only to skip the packet) buffers an attacker-sized body for nothing.  Every read_to_end /
+    read_to_string whose destination is a local buffer must have that buffer used afterwards."""
+    n = 0
+    ordn = {}
+    for p, r in sorted(ctx.f.bodies.items()):
+        if panics.skip_body(p, r):
+            continue
+        b = ctx.wrap(r)
+        calls = b.calls(r'io::Read::read_to_end$|io::Read::read_to_string$')
+        if not calls:
+            ctx.functions.discard(p)
+            continue
+        defs = single_defs(b)
+        for i, t in calls:
+            if len(t['args']) < 2:
+                continue
+            # follow the (re)borrow chain to the buffer itself
+            o = t['args'][1]
+            chain = set()
+            root = None
+            for _ in range(6):
+                if 'l' not in o:
+                    break
+                d = defs.get(o['l'])
+                if d is None or d[1].get('k') == 'call':
+                    root = o['l'] if not [x for x in o['pr'] if x != '*'] else None
+                    break
+                rr = d[1]['r']
+                if rr['k'] == 'ref':
+                    chain.add(o['l'])
+                    o = rr['p']
+                    if [x for x in o['pr'] if x != '*']:
+                        root = None
+                        break
+                    if not o['pr']:
+                        root = o['l']
+                        break
+                    continue
+                if rr['k'] == 'use' and 'l' in rr['o'][0]:
+                    chain.add(o['l'])
+                    o = rr['o'][0]
+                    continue
+                break
+            if root is None or root == 0 or root <= r.get('nargs', 0):
+                continue   # a caller's buffer, a field, or the return value: used by definition
+            d = defs.get(root)
+            if d is None or d[1].get('k') != 'call' or not re.search(r'(Vec::<.*>|String|BytesMut)::(new|with_capacity)$', d[1]['f'].get('fn', '')):
+                continue
+            n += 1
+            ordn[p] = ordn.get(p, 0) + 1
+            uses = 0
+            for bi, blk in enumerate(b.blocks):
+                if blk['c']:
+                    continue
+                for s_ in blk['s']:
+                    if s_['d']['l'] in chain and not s_['d']['pr']:
+                        continue
+                    if _mentions(s_['r'], root):
+                        uses += 1
+                tt = blk['t']
+                if tt['k'] == 'call' and tt is not t and _mentions(tt['args'], root):
+                    uses += 1
+                if tt['k'] == 'switch' and _mentions(tt['o'], root):
+                    uses += 1
+            ctx.check('%s:S19-5:buffer-read-is-used:%s#%d' % (P, p, ordn[p]), 'R-alloc', 'the buffer filled by read_to_end in %s is used afterwards (a body is not buffered whole just to be skipped)' % p.split('::')[-1],
+                      uses > 0, function=p, site=site(b, i), missing=None if uses else 'the vector is filled with the whole body and dropped: drain the reader instead (io::copy to io::sink, or the reader\'s drain())')
+    ctx.floor(P + ':S19-5:floor', 'read_to_end calls into a local buffer', n, 4)
 
 
 def r_alloc(ctx, P):
